@@ -12,6 +12,7 @@ package main
 // When nothing resolves the extractors fall back to the expression text.
 
 import (
+	"fmt"
 	"go/ast"
 	"go/importer"
 	"go/parser"
@@ -33,6 +34,11 @@ type pkgInfo struct {
 	info  *types.Info
 	// fieldName maps a struct field object to "pkg.Type.field" ("Type.field" in the root package).
 	fieldName map[*types.Var]string
+	// stableName maps a struct field object to a name that survives a rename of the field: exported fields keep their
+	// Go name; an unexported field is "pkg.Type.<type of the field>#<k>", k counting the fields of that type in the
+	// struct's declaration in source order ("mutex" / "cond" stand for the sync types); the C18 extractor overrides
+	// the entries of the fields that have a role name (extract/accesstable.go fieldRoles).
+	stableName map[*types.Var]string
 	// chanCap maps "Type.field" to the textual capacity of the make(chan) that initialises it ("" = unbuffered), when found.
 }
 
@@ -167,7 +173,7 @@ func loadPkgDir(rel, dir, path string) *pkgInfo {
 		pkgCache[rel] = nil
 		return nil
 	}
-	pi := &pkgInfo{rel: rel, files: map[string]*ast.File{}, fieldName: map[*types.Var]string{}}
+	pi := &pkgInfo{rel: rel, files: map[string]*ast.File{}, fieldName: map[*types.Var]string{}, stableName: map[*types.Var]string{}}
 	var names []string
 	for _, e := range ents {
 		n := e.Name()
@@ -230,9 +236,99 @@ func loadPkgDir(rel, dir, path string) *pkgInfo {
 				pi.fieldName[st.Field(i)] = prefix + n + "." + st.Field(i).Name()
 			}
 		}
+		stableFieldNames(pi, prefix)
 	}
 	pkgCache[rel] = pi
 	return pi
+}
+
+// useStableNames makes fieldOf (and with it chanName) answer with the rename-proof name of a field instead of its Go
+// name.  The C18 extractor switches it on for its own run: the reviewed lockset / ownership tables then do not depend
+// on how an unexported field or mutex is called.
+var useStableNames bool
+
+// stableDisplay: rename-proof name -> what the thing is called in the source today (display only; emitted as
+// Gen/AccessNames.lean so that diagnostics can print the Go identifier next to the stable name)
+var stableDisplay = map[string]string{}
+
+// fieldTypeKey spells the type of a struct field: the type checker's spelling when it resolved the type, else the
+// source text (types of the stand-in packages do not resolve).
+func fieldTypeKey(pi *pkgInfo, f *ast.Field) string {
+	if t := typeOf(pi, f.Type); t != nil {
+		if s := typeText(t); !strings.Contains(s, "invalid type") {
+			return s
+		}
+	}
+	return strings.Join(strings.Fields(src(f.Type)), "")
+}
+
+// stableFieldNames fills pi.stableName for the struct types declared at package level.
+func stableFieldNames(pi *pkgInfo, prefix string) {
+	var bases []string
+	for b := range pi.files {
+		bases = append(bases, b)
+	}
+	sort.Strings(bases)
+	for _, b := range bases {
+		for _, d := range pi.files[b].Decls {
+			gd, ok := d.(*ast.GenDecl)
+			if !ok || gd.Tok != token.TYPE {
+				continue
+			}
+			for _, sp := range gd.Specs {
+				ts, ok := sp.(*ast.TypeSpec)
+				if !ok {
+					continue
+				}
+				st, ok := ts.Type.(*ast.StructType)
+				if !ok || st.Fields == nil {
+					continue
+				}
+				count := map[string]int{}
+				for _, f := range st.Fields.List {
+					key := fieldTypeKey(pi, f)
+					// a mutex is a mutex and a condition variable a condition variable, whichever flavour
+					switch key {
+					case "sync.Mutex", "sync.RWMutex", "*sync.Mutex", "*sync.RWMutex":
+						key = "mutex"
+					case "sync.Cond", "*sync.Cond":
+						key = "cond"
+					}
+					for _, id := range f.Names {
+						count[key]++
+						v, _ := pi.info.Defs[id].(*types.Var)
+						if v == nil {
+							continue
+						}
+						if id.IsExported() {
+							pi.stableName[v] = prefix + ts.Name.Name + "." + id.Name
+						} else {
+							pi.stableName[v] = fmt.Sprintf("%s%s.%s#%d", prefix, ts.Name.Name, key, count[key])
+						}
+					}
+					if len(f.Names) == 0 {
+						// embedded field: its name is the type's name, which a rename of the type changes anyway
+						count[key]++
+					}
+				}
+			}
+		}
+	}
+}
+
+// goNameOfStable returns the current Go name ("pkg.Type.field") of a stable field name, "" when there is none.
+func goNameOfStable(stable string) string {
+	for _, p := range pkgCache {
+		if p == nil {
+			continue
+		}
+		for v, n := range p.stableName {
+			if n == stable {
+				return p.fieldName[v]
+			}
+		}
+	}
+	return ""
 }
 
 // fieldOf returns "pkg.Type.field" when e is a selector that denotes a field of
@@ -254,6 +350,14 @@ func fieldOf(pi *pkgInfo, e ast.Expr) (string, bool) {
 	for _, p := range pkgCache {
 		if p == nil {
 			continue
+		}
+		if useStableNames {
+			if n, ok := p.stableName[v]; ok {
+				if g := p.fieldName[v]; g != n {
+					stableDisplay[n] = g
+				}
+				return n, true
+			}
 		}
 		if n, ok := p.fieldName[v]; ok {
 			return n, true
